@@ -111,7 +111,11 @@ func (ex *Exec) VerifyFunc(ct *Contract) (res *FuncResult) {
 		id := st.NewCell(content)
 		pv := &PtrVal{Kind: PLocal, Cell: id, Root: et}
 		st.env[fv] = pv
-		vars[fv.Name()] = pv
+		if ct, isT := content.(T); isT {
+			vars[fv.Name()] = ct // contracts of closures speak about the captured variable's value at entry
+		} else {
+			vars[fv.Name()] = pv
+		}
 	}
 	// requires
 	envR := &SpecEnv{ex: ex, vars: vars, cur: st, pkg: ct.Pkg, bound: map[string]T{}}
